@@ -155,7 +155,7 @@ func (wg *WeightedAuthorizationModelGraph) calculateEdgeWildcards(edge *Weighted
 		return
 	}
 	// otherwise add the node wildcards
-	edge.wildcards = nodeWildcards
+	edge.wildcards = slices.Clone(nodeWildcards)
 }
 
 func (wg *WeightedAuthorizationModelGraph) addReferentialWildcardsToEdge(edge *WeightedAuthorizationModelEdge, referentialNodeID string) {
@@ -166,7 +166,7 @@ func (wg *WeightedAuthorizationModelGraph) addReferentialWildcardsToEdge(edge *W
 	}
 	// if the edge does not have any wildcards, we can add the referential node wildcards
 	if len(edge.wildcards) == 0 {
-		edge.wildcards = referentialNode.wildcards
+		edge.wildcards = slices.Clone(referentialNode.wildcards)
 		return
 	}
 	// otherwise add the referential node wildcards to the existing edge wildcards only if the wildcard does not exist in the slice
@@ -184,7 +184,7 @@ func (wg *WeightedAuthorizationModelGraph) addReferentialWildcardsToNode(nodeID 
 	node := wg.nodes[nodeID]
 	// if the node does not have any wildcards, we can add the referential node wildcards
 	if len(node.wildcards) == 0 {
-		node.wildcards = referentialNode.wildcards
+		node.wildcards = slices.Clone(referentialNode.wildcards)
 		return
 	}
 	// otherwise add the referential node wildcards to the existing node wildcards only if the wildcard does not exist in the slice
@@ -205,7 +205,7 @@ func (wg *WeightedAuthorizationModelGraph) addEdgeWildcardsToNode(nodeID string,
 
 	// if the node does not have any wildcards, we can add the edge wildcards
 	if len(node.wildcards) == 0 {
-		node.wildcards = edge.wildcards
+		node.wildcards = slices.Clone(edge.wildcards)
 		return
 	}
 	// otherwise add the edge wildcards to the existing node wildcards only if the wildcard does not exist in the slice
